@@ -130,13 +130,19 @@ def run(chk: Check) -> None:
 
     # nested unwrapping: a future resolving to a future is followed, not delivered
     un = prog.func('futures.unwrap_kiwi_future.unwrap')
-    tests = [n for n in ast.walk(un.node) if isinstance(n, ast.If) and 'isinstance(result' in norm(n.test) and 'Future' in norm(n.test)]
-    ok = False
-    for t in tests:
-        body_calls = [c for s in t.body for c in ast.walk(s) if isinstance(c, ast.Call)]
-        else_calls = [c for s in t.orelse for c in ast.walk(s) if isinstance(c, ast.Call)]
-        ok = any(last_name(c) == 'add_done_callback' and norm(c.func.value) == 'result' for c in body_calls) and any(
-            last_name(c) == 'set_result' and [norm(a) for a in c.args] == ['result'] for c in else_calls)
+    # site-centric: the re-registration happens exactly where the result is known to be a future, the delivery exactly where it is known not to be
+    uf = chk.ctx.facts.analyse(un)
+    rv_ = [norm(n.targets[0]) for n in ast.walk(un.node) if isinstance(n, ast.Assign) and isinstance(n.value, ast.Call) and last_name(n.value) == 'result' and isinstance(n.targets[0], ast.Name)]
+    ok = len(rv_) == 1
+    if ok:
+        rv_ = rv_[0]
+        def is_fut(fs):
+            return any((a[0] == 'isinst' and a[1] == rv_ and 'Future' in a[2]) or (a[0] == 'T' and a[1].startswith(f'isinstance({rv_},') and 'Future' in a[1]) for a in fs)
+        def not_fut(fs):
+            return any(a[0] == 'F' and a[1].startswith(f'isinstance({rv_},') and 'Future' in a[1] for a in fs)
+        regs = [c for c in calls_in_func(un) if last_name(c) == 'add_done_callback' and norm(c.func.value) == rv_]
+        dels = [c for c in calls_in_func(un) if last_name(c) == 'set_result' and [norm(a) for a in c.args] == [rv_]]
+        ok = len(regs) == 1 and len(dels) == 1 and all(is_fut(fs) for _, fs in uf.site_facts(regs[0])) and all(not_fut(fs) for _, fs in uf.site_facts(dels[0]))
     chk.ob('FUT-unwrap', un, ok, 'a result that is itself a future is unwrapped further; anything else is delivered as is', kind='nested-followed')
     od = prog.func('communications.plum_to_kiwi_future.on_done')
     conv = [n for n in ast.walk(od.node) if isinstance(n, ast.If) and 'isinstance(result' in norm(n.test) and 'Future' in norm(n.test)]
@@ -181,7 +187,8 @@ def run(chk: Check) -> None:
         chk.ob('FUT-run-once', run_f, inside, 'the action runs inside capture_exceptions(self): its failure becomes the action\'s outcome',
                node=acts[0], kind='captured-into-self')
         sr = [c for c in calls_in_func(run_f, 'set_result') if norm(c.func.value) == 'self']
-        ok = len(sr) == 1 and len(sr[0].args) == 1 and any(acts[0] is x for x in ast.walk(sr[0].args[0]))
+        from ..rules import Resolver
+        ok = len(sr) == 1 and len(sr[0].args) == 1 and (any(acts[0] is x for x in ast.walk(sr[0].args[0])) or Resolver(run_f).text(sr[0].args[0]) == norm(acts[0]))
         chk.ob('FUT-run-once', run_f, ok, 'the action\'s return value is the action future\'s result', node=sr[0] if sr else run_f.node,
                kind='result-through-self')
         va, kw = run_f.node.args.vararg, run_f.node.args.kwarg
